@@ -199,6 +199,9 @@ func TestVerifC01Core(t *testing.T) {
 func TestVerifC01Sess(t *testing.T) {
 	rec := newRec(t, "C01")
 	defer rec.finish(t)
+	// a pool buffer with two owners is how delivered bytes get altered: the
+	// sanitizer's ownership reports decide C01 in these scenarios as well
+	rec.alsoOwn = []string{"C15 pooled buffer"}
 	var caseIdx int64 = 1 << 32
 	c01SessionPart(t, rec, &caseIdx)
 }
